@@ -386,6 +386,24 @@ class Memory:
                 facts.add(ph.sub(lb))
             if entails(nd, b.facts, eng.bounds, 1):     # lb <= la on side B  => phi <= la
                 facts.add(la.sub(ph))
+        # length-bound template: a joined quantity that stays below the same sequence length on both sides stays below
+        # it after the join (running offsets into a buffer: `offset <= len(data)`), whatever shape the two values have
+        lens = []
+        for f in (list(a.facts)[:200] + list(b.facts)[:200]) if (loop_head or getattr(eng, 'len_bound_all_joins', False)) else ():
+            for sy in f.syms():
+                if sy in eng.len_syms and sy not in lens:
+                    lens.append(sy)
+        if (loop_head or getattr(eng, 'len_bound_all_joins', False)) and lens and len(phis) <= 12:
+            for (p, la, lb) in phis:
+                if la is None or lb is None:
+                    continue
+                for sy in lens[:6]:
+                    u = Lin.sym(sy)
+                    cand = u.sub(Lin.sym(p))
+                    if cand in facts:
+                        continue
+                    if entails(u.sub(la), a.facts, eng.bounds) and entails(u.sub(lb), b.facts, eng.bounds):
+                        facts.add(cand)
         for f in self._extra:
             facts.add(f)
         out.facts = frozenset(f for f in facts if not f.is_const())
